@@ -273,7 +273,7 @@ SPECS.update({
 })
 
 
-def c09_run(prop, spec, workdir, tier, seed, t0):
+def two_phase_run(prop, spec, workdir, tier, seed, t0):
     """Phase 1: operation histories on the full corpus (checkptr build). Phase 2: concurrent Size/Marshal on shared quiescent
     messages, -race build of one unit per feature group."""
     try:
@@ -292,7 +292,7 @@ def c09_run(prop, spec, workdir, tier, seed, t0):
         return 2
     spec2 = dict(spec)
     spec2.update({"shards": 4, "shards_thorough": 8, "flavor": "race", "ulimit_kb": None})
-    r2, c2, i2 = driver.run_shards(spec2, w2, wl2, prop, tier, seed, env_extra={"VERIF_C09_PHASE": "concurrent", "_race": "1"})
+    r2, c2, i2 = driver.run_shards(spec2, w2, wl2, prop, tier, seed, env_extra={"VERIF_%s_PHASE" % prop: "concurrent", "_race": "1"})
     merged = driver.merge(results + r2)
     for c in crashes + c2:
         merged["violations"].setdefault(c["sig"], c)
@@ -309,7 +309,7 @@ def c09_run(prop, spec, workdir, tier, seed, t0):
 
 SPECS.update({
     "C09": {
-        "binary": "wl-gen", "flavor": "plain", "shards": 16, "run": c09_run,
+        "binary": "wl-gen", "flavor": "plain", "shards": 16, "run": two_phase_run,
         "timeout_quick": 1200, "timeout_thorough": 3400, "ulimit_kb": 8 << 20,
         "floor": 300, "extra_floors": {"concurrent_message_types": 9},
         "technique": "runtime monitoring: executable model (current contents) vs real object across operation histories; Go race detector for the concurrent clause",
@@ -402,6 +402,74 @@ SPECS.update({
                  "<prefix>_<lower(message)>.pb.fm.go, every file must parse (go/parser) and the package must compile together with the types produced by protoc-gen-gogo / protoc-gen-go; non-trivial when the response holds >=1 file; distinct by (unit, flavour, option tuple)"),
         "explanation": "corpus: feature matrix for proto2 and proto3 (scalars, repeated, packed/unpacked, oneofs, maps by key and value kind, nested/recursive, field-number ranges, enums, well-known types, name collisions, equal short names, proto3 optional, required, extensions by family) plus seeded random units; fields named size/marshal_to are generated for the gogo-style runtimes only (protoc-gen-go cannot rename them: not in the supported set)",
         "assumptions": TRUST_GEN[:1] + ["the harness plays protoc's role; descriptors validated by protodesc.NewFile"],
+    },
+})
+
+
+def c10_run(prop, spec, workdir, tier, seed, t0):
+    """Two workloads: lazyproto safe mode (wl-lazy) and generated Unmarshal with default options (wl-gen)."""
+    lazy = os.path.join(workdir, "wl-lazy")
+    driver.go_build("./cmd/wl-lazy", lazy, "plain", driver.HARNESS)
+    w1 = os.path.join(workdir, "lazy")
+    os.makedirs(w1)
+    r1, c1, i1 = driver.run_shards(dict(spec, shards=8), w1, lazy, prop, tier, seed)
+    try:
+        wl, report = build_corpus(workdir, tier, seed, "behave", "plain")
+    except driver.Inconclusive as e:
+        print("INCONCLUSIVE property=%s reason=%s" % (prop, str(e).replace("\n", " | ")[:1500]))
+        return 2
+    r2, c2, i2 = driver.run_shards(spec, workdir, wl, prop, tier, seed)
+    merged = driver.merge(r1 + r2)
+    for c in c1 + c2:
+        merged["violations"].setdefault(c["sig"], c)
+    merged["inconclusive"] += i1 + i2
+    return driver.finish(prop, spec, tier, seed, merged, t0, extra_cov={"corpus_packages_linked": sum(1 for p in report["packages"] if p["linked"])})
+
+
+SPECS.update({
+    "C10": {
+        "binary": "wl-gen", "flavor": "plain", "shards": 16, "run": c10_run,
+        "timeout_quick": 900, "timeout_thorough": 3400, "ulimit_kb": 8 << 20,
+        "floor": 200, "extra_floors": {"alias_observed_in_unsafe_decode_packages": 1},
+        "rule": ("generated code: one case = a valid encoding (with unknown fields at every level) decoded by the generated Unmarshal from a caller-owned buffer; the decoded message is snapshotted through the bridge "
+                 "(deterministic re-encoding), the buffer is overwritten with 0x00, 0xFF and its bit-inverse and reused for another decode, and the message must re-encode identically after each step; in addition a "
+                 "reflection walk reports every string/[]byte (fields, repeated elements, map keys/values, oneof members, nested messages, unknown-field storage) whose data pointer lies inside the buffer. "
+                 "lazyproto: every accessor value obtained in safe mode (Decode function, Decoder) is snapshotted, the caller's buffer clobbered/reused, values compared and all accessors re-read, also after Close. "
+                 "non-trivial when a string/bytes/unknown field is present; distinct by (package, message, field/case) resp. (entry point, clobber stage)"),
+        "explanation": "packages generated with enableunsafedecode=true are run too: aliasing of strings there is the documented opt-in and is only counted (alias_observed_in_unsafe_decode_packages) to show that the monitor fires; aliasing of bytes/unknown fields there is still reported",
+        "assumptions": TRUST_GEN + TRUST_LAZY,
+    },
+})
+
+SPECS.update({
+    "C11": {
+        "binary": "wl-gen", "flavor": "plain", "shards": 16, "run": two_phase_run,
+        "timeout_quick": 1200, "timeout_thorough": 3400, "ulimit_kb": 8 << 20,
+        "floor": 300, "extra_floors": {"rounds_with_overlapping_first_classification": 10},
+        "technique": "runtime monitoring: owning runtime's own API and dynamicpb as oracles; Go race detector + hook-widened first-classification races",
+        "rule": ("sequential: one case = one message value of a plain (no fast-marshal methods) or fast type of each runtime; csproto.Marshal bytes must decode to the original with the runtime's own Unmarshal and with dynamicpb, "
+                 "the runtime's Marshal bytes must decode with csproto.Unmarshal, csproto.Size == len, Clone/Equal/Reset/MarshalText (whitespace-normalised) equal the runtime's own function, GrpcCodec equals Marshal/Unmarshal with name 'proto', "
+                 "MsgType equals the flavour's class; csproto.Equal across runtimes is false; unsupported values (nil, int, string, struct, pointer to non-message, typed nil, slice) give the documented error/zero result without panic; "
+                 "distinct by (flavour, plain/fast, message, value class). concurrent: rounds in which G in {2,16,64} goroutines (GOMAXPROCS 1,2,16) call MsgType/Clone/MarshalText on values of types whose classification was just "
+                 "evicted (verif hook), with seeded yields between cache miss and store, under -race; every goroutine must observe the correct class; evidence counts rounds with >=2 goroutines inside the miss window"),
+        "explanation": "fast types with declared extensions are skipped (their generated extension code is listed under C04-C08); gogo well-known types are exercised as fields of plain gogo types",
+        "assumptions": TRUST_GEN + ["the owning runtime's API is the stated oracle for Clone/Equal/Reset/MarshalText", "the race detector only sees races on executions that happened"],
+    },
+})
+
+SPECS.update({
+    "C12": {
+        "binary": "wl-gen", "flavor": "plain", "shards": 16, "run": gen_run,
+        "timeout_quick": 900, "timeout_thorough": 3400, "ulimit_kb": 8 << 20,
+        "floor": 60,
+        "technique": "runtime monitoring: executable model (map number->value) + owning runtime's own extension API as oracles over operation histories",
+        "rule": ("one case = one step of a seeded sequence (3-10 ops) of SetExtension / ClearExtension / ClearAllExtensions / checks on an extendable message of each runtime (types generated without fast-marshal code), "
+                 "over every extension family of the corpus (scalars of every kind, bytes/string, message, enum, repeated, file-level and nested-declared); after every step HasExtension/GetExtension are compared with the model and "
+                 "with the runtime's own HasExtension/GetExtension, ExtensionFieldNumber with the declared number, RangeExtensions with the set of set numbers, and a refwire walk of csproto.Marshal output with the set numbers "
+                 "(cleared extensions must be gone); gogo messages are paired with google descriptors and vice versa: Has must be false, Get/Set must fail, the message must be unchanged (ClearExtension's documented panic is tolerated); "
+                 "non-trivial when a sequence contains a Set and a Clear; distinct by (flavour, unit, op bigram) and (message flavour, descriptor flavour)"),
+        "explanation": "values are built in each runtime's own convention (pointer-to-scalar for Gogo/Google V1, plain values for V2) from dynamic values; Google V1 and V2 descriptors share one Go type and are not a mismatch pair",
+        "assumptions": TRUST_GEN + ["the owning runtime's extension API is the stated oracle"],
     },
 })
 
